@@ -102,6 +102,8 @@ def classify(unit, diags):
         spans = d.get("spans", [])
         summary = {"message": msg, "spans": [(s.get("line_start"), s.get("line_end"), s.get("label"), s.get("is_primary")) for s in spans]}
         is_proof_failure = any(k in msg for k in NOT_SAT)
+        if _is_rlimit(msg):
+            continue  # a solver resource limit is neither a front-end error nor a failed obligation: see verify_unit
         if not is_proof_failure:
             hard.append(summary)
             continue
@@ -136,6 +138,10 @@ def classify(unit, diags):
         else:
             unattr.append(summary)
     return failed, unattr, hard
+
+
+def _is_rlimit(msg):
+    return "Resource limit" in msg or "rlimit" in msg.lower() or "timed out" in msg.lower()
 
 
 _FN_RE = re.compile(r"^\s*(?:pub\s+)?(?:async\s+)?(?:proof\s+|spec\s+|open\s+spec\s+|closed\s+spec\s+)?fn\s+([A-Za-z_][A-Za-z0-9_]*)")
@@ -187,7 +193,7 @@ def fn_key_at(unit, line):
     return None
 
 
-def verify_unit(unit_name, scratch, reach=True, mutate=None, seed=None, tag=""):
+def verify_unit(unit_name, scratch, reach=True, mutate=None, seed=None, tag="", tolerate_rlimit=False):
     """returns a dict describing the run.  Raises Undecided for tool problems.
 
     Isolation loop: a front-end (rustc / unsupported-construct) error located inside an extracted fn does not
@@ -236,15 +242,16 @@ def verify_unit(unit_name, scratch, reach=True, mutate=None, seed=None, tag=""):
             raise Undecided("verus front-end / tool error in unit %s (outside the extracted functions): %s" % (unit_name, msgs))
     else:
         raise Undecided("verus front-end errors persist in unit %s: %s" % (unit_name, "; ".join(attempts[-4:])))
-    if vr.get("encountered-vir-error") or (not vr.get("success") and not failed and not unattr):
+    rl = [d for d in diags if d.get("level") == "error" and _is_rlimit(d.get("message", ""))]
+    rl_fns = sorted({fn_at_line(unit, sp.get("line_start", 0)) or "?" for d in rl for sp in d.get("spans", [])[:1]})
+    if vr.get("encountered-vir-error") or (not vr.get("success") and not failed and not unattr and not rl):
         raise Undecided("verus tool error in unit %s: %s" % (unit_name, "; ".join(raw[:5])))
-    rl = [d for d in diags if "Resource limit" in d.get("message", "") or "rlimit" in d.get("message", "").lower() or "timed out" in d.get("message", "").lower()]
-    if rl:
-        raise Undecided("solver resource limit in unit %s: %s" % (unit_name, rl[0]["message"][:200]))
+    if rl and not tolerate_rlimit:
+        raise Undecided("solver resource limit in unit %s (fn %s): %s" % (unit_name, ", ".join(rl_fns), rl[0]["message"][:200]))
     res = {
         "unit": unit, "failed": failed, "unattributed": unattr, "verified": vr.get("verified", 0),
         "errors": vr.get("errors", 0), "times": oj.get("times-ms", {}), "cmd": " ".join(cmd), "wall_s": time.time() - t0,
-        "file": fname, "stderr": err, "stubbed": dict(unit.stubbed), "isolation": attempts,
+        "file": fname, "stderr": err, "stubbed": dict(unit.stubbed), "isolation": attempts, "rlimit_fns": rl_fns,
     }
     # ---- reach pass: every contracted, non-stubbed function must fail at its REACH line
     if reach:
